@@ -69,8 +69,10 @@ def monitor_requests(R, w, case, level, discovered, user=rig.USER):
         if usm["engine_id"] != w.agent.engine_id:
             R.violation(case, "msgAuthoritativeEngineID %s != discovered %s" % (usm["engine_id"].hex(), w.agent.engine_id.hex()), None)
             return False
-        if (usm["boots"], usm["time"]) != discovered:
-            R.violation(case, "engine boots/time %r != discovered %r" % ((usm["boots"], usm["time"]), discovered), None)
+        # the agent's engine clock is frozen in this check; the client may add the
+        # (real) seconds elapsed since discovery, which must stay inside the window
+        if usm["boots"] != discovered[0] or not discovered[1] <= usm["time"] <= discovered[1] + 150:
+            R.violation(case, "engine boots/time %r, discovered %r" % ((usm["boots"], usm["time"]), discovered), None)
             return False
         if usm["user"] != user.encode():
             R.violation(case, "msgUserName %r" % usm["user"], None)
